@@ -35,6 +35,8 @@ pub struct ChaosOpts {
     /// allow firing the same timer twice / keeping it (violates C13's premise)
     pub dup_timers: bool,
     pub set_config: bool,
+    /// C06: a caught panic is the violation
+    pub panic_is_violation: bool,
 }
 
 fn min_mps(c: CodecKind) -> usize {
@@ -154,6 +156,9 @@ pub fn chaos_case(ctx: &Ctx, case: u64, acc: &mut Acc, opts: &ChaosOpts) -> Resu
         for (t, _) in rec.scheds() {
             peers[who].timers.push(t.clone());
         }
+        if opts.panic_is_violation {
+            crate::checks::c06::panic_verdict(&rec)?;
+        }
         if rec.res.is_panic() {
             // C06 owns panics; this case cannot continue
             acc.inconclusive += 1;
@@ -185,7 +190,7 @@ pub fn chaos_case(ctx: &Ctx, case: u64, acc: &mut Acc, opts: &ChaosOpts) -> Resu
 
 pub fn default_opts(arm: Arm, ctx: &Ctx) -> ChaosOpts {
     let _ = ctx;
-    ChaosOpts { arm, steps: 400, dup_timers: !arm.c13, set_config: true }
+    ChaosOpts { arm, steps: 400, dup_timers: !arm.c13, set_config: true, panic_is_violation: false }
 }
 
 /// Standard wrapper: run, count non-trivial cases by `interesting`
